@@ -762,6 +762,42 @@ def named_objects(chk):
         _viol(chk, "descriptor:named-objects", "name maps / alias / positions of a form with named objects disagree with the UFL file",
               {"descriptor": got, "expected": exp})
     chk.case("named-objects", key="derivative-drops-middle-coefficient")
+    # several forms in one module that are equal up to renaming of their coefficients/constants (equal UFL
+    # signatures): each form's name maps, alias, rank and counts must be its OWN
+    t1, t2, g2, h2 = ufl.Coefficient(V), ufl.Coefficient(V), ufl.Coefficient(V), ufl.Coefficient(V)
+    q1, q2 = ufl.Constant(m), ufl.Constant(m)
+    u = ufl.TrialFunction(V)
+    L1 = q1 * t1 * v * ufl.dx + t2 * v * ufl.ds(1)
+    L2 = q2 * g2 * v * ufl.dx + h2 * v * ufl.ds(1)
+    a1 = t1 * u * v * ufl.dx
+    a2 = h2 * u * v * ufl.dx
+    names = {id(t1): "t1", id(t2): "t2", id(g2): "g2", id(h2): "h2", id(q1): "q1", id(q2): "q2",
+             id(L1): "L1", id(L2): "L2", id(a1): "a1", id(a2): "a2"}
+    try:
+        code, _ = ffcx.compiler.compile_ufl_objects([L1, a1, L2, a2], options=ffcx.options.get_options({}), object_names=names, namespace="ns")
+    except Exception as ex:  # a module of four ordinary forms must compile
+        _viol(chk, "descriptor:named-objects:signature-equal-forms",
+              f"a module with forms that are equal up to renaming of coefficients/constants fails to generate ({type(ex).__name__}: {str(ex)[:120]})",
+              {"exception": type(ex).__name__})
+        return
+    src = code[1]
+    exp = {"L1": (["t1", "t2"], ["q1"], 1), "L2": (["g2", "h2"], ["q2"], 1), "a1": (["t1"], [], 2), "a2": (["h2"], [], 2)}
+    for alias, (cnames, knames, rank) in exp.items():
+        mm = re.search(r"ufcx_form\* form_ns_%s = &(form_\w+);" % alias, src)
+        got = None
+        if mm:
+            fname = mm.group(1)
+            cn = re.search(r"coefficient_names_%s\[\d+\] = \{([^}]*)\}" % fname, src)
+            kn = re.search(r"constant_names_%s\[\d+\] = \{([^}]*)\}" % fname, src)
+            body = src[src.index("ufcx_form %s =" % fname):]
+            rk = re.search(r"\.rank = (\d+)", body)
+            got = ([x.strip().strip('"') for x in cn.group(1).split(",")] if cn else [],
+                   [x.strip().strip('"') for x in kn.group(1).split(",")] if kn else [], int(rk.group(1)) if rk else None)
+        chk.case("named-objects", key=f"signature-equal-forms:{alias}")
+        if got != (cnames, knames, rank):
+            _viol(chk, "descriptor:named-objects:signature-equal-forms",
+                  "a form that is equal to another form of the module up to renaming of coefficients/constants gets the wrong name maps / alias / rank",
+                  {"alias": alias, "descriptor": got, "expected": [cnames, knames, rank]})
 
 
 # =============================================================================== entry point
